@@ -203,6 +203,14 @@ def check_one(ctx, s, encoded, part):
         for g in e["gray"]:
             ctx.count("gray_" + g)
         if any(g in ("scheme-like-prefix", "text-around-brackets", "bracket-in-userinfo", "ipvfuture-lax", "degenerate-authority", "nfkc-bracket-lookalike") for g in e["gray"]):
+            if e["gray"] == ["text-around-brackets"] and "text-after-bracket" in e.get("notes", ()) and "text-before-bracket" not in e.get("notes", ()) and e.get("port_class") in ("none", "valid"):
+                # whether text between ']' and the port is tolerated is not specified; WHERE the port is, is: after the ':' that follows
+                # the closing bracket (no ':' there - no port)
+                gp = guarded(lambda: u.explicit_port)
+                ctx.count("port_after_bracket_text_checked")
+                if not is_exc(gp) and gp != e.get("port_value"):
+                    ctx.fail("split_mismatch", case, f"explicit_port: expected {e.get('port_value')!r} got {gp!r} (text between ']' and the port's ':')", expected=_exp_json(e), fields=["explicit_port"])
+                    return
             recomposition(ctx, u, case)
             return
     bad = []
